@@ -10,7 +10,7 @@ CLIENTFLAGS = -DBOOST_MQTT5_VERIF -DBOOST_MQTT5_VERIF_RESOLVER_TYPE=::sim::sim_r
 LDFLAGS = $(SAN) -Wl,--wrap=time -pthread
 
 HARNESS = core/world core/sim_timer core/sim_resolver core/clock_interpose net/network net/stream \
-          broker/ref_codec broker/broker app/plan_json app/gen app/driver app/oracles app/oracles2 app/oracles3 app/shrink app/main
+          broker/ref_codec broker/broker app/plan_json app/gen app/driver app/oracles app/oracles2 app/oracles3 app/shrink app/diff app/main
 OBJS = $(addprefix $(B)/,$(addsuffix .o,$(HARNESS))) $(B)/client_A.o $(B)/client_B.o
 
 COMPS = $(B)/comp_rc_table $(B)/comp_pid_alloc $(B)/comp_async_mutex
